@@ -61,21 +61,23 @@ def natural(ctx, n, plain_only=False, with_value=False):
                     yield ("natpy-p%d" % proto, data, v) if with_value else ("natpy-p%d" % proto, data)
 
 
-def vocab_fates(ctx, names=None, framings=("none", "proto2", "proto4frame")):
+def vocab_fates(ctx, names=None, framings=("none", "proto2", "proto4frame"), fates=None, resolves=None, callops=None):
     """Fate matrix: every call-making opcode x every way of disposing of the value."""
     if names is None:
         names = [("vp_sink", "hit"), ("__builtin__", "exec"), ("builtins", "getattr"), ("os", "system"),
                  ("vp_other", "hit")]
         # special-cased attribute names, from builtins and from a non-stdlib module; fewer framings each
         names += [("builtins", n) for n in gen.SPECIAL_NAMES] + [("vp_sink", n) for n in gen.SPECIAL_NAMES]
+        # the same special names from a *stdlib* module (rules exempt "names imported from the stdlib")
+        names += [("collections", n) for n in gen.EVALCLASS + gen.RULE_NAMES]
     for i, (m, n) in enumerate(names):
         frs = framings if i < 5 else framings[:1] if ctx.tier == "quick" else framings
-        for r in gen.RESOLVE_OPS:
-            for c in gen.CALL_OPS:
+        for r in (resolves or gen.RESOLVE_OPS):
+            for c in (callops or gen.CALL_OPS):
                 call = gen.make_call(r, c, m, n, ["x", 1])
                 if call is None:
                     continue
-                for fate in gen.FATES:
+                for fate in (fates or gen.FATES):
                     body = gen.apply_fate(call, fate)
                     for fr in frs:
                         data = gen.frame(body, fr)
